@@ -21,6 +21,7 @@ type scheduler struct {
 	abort    interface{}
 	dead     bool
 	race     bool
+	sharedYield bool
 	switches int
 	// onlyKinds, when set, restricts preemptive scheduling points to these yield kinds
 	onlyKinds map[string]bool
@@ -63,6 +64,9 @@ func (m *Machine) setSchedKinds(kinds string) {
 	for _, k := range strings.Split(kinds, ",") {
 		s.onlyKinds[strings.TrimSpace(k)] = true
 	}
+	// "sharedwrite": a plain store to a memory cell that another goroutine has read or written before
+	// is a scheduling point as well (read-modify-write sequences on shared records can then be split)
+	s.sharedYield = s.onlyKinds["sharedwrite"]
 }
 func (m *Machine) enableRace()          { m.ensureSched(m.curG).race = true }
 
@@ -399,9 +403,44 @@ func (g *G) hb(gid, clk int) bool {
 	return gid < len(g.vc) && clk <= g.vc[gid]
 }
 
-func (g *G) raceOn() bool { return g.m.sched != nil && g.m.sched.race && g.inInit == 0 }
+func (g *G) raceOn() bool {
+	return g.m.sched != nil && (g.m.sched.race || g.m.sched.sharedYield) && g.inInit == 0
+}
+
+// yieldBeforeSharedWrite makes a store a scheduling point when the target was touched by another goroutine.
+func (g *G) yieldBeforeSharedWrite(c *Cell) {
+	s := g.m.sched
+	if s == nil || !s.sharedYield || g.inInit != 0 {
+		return
+	}
+	if g.touchedByOther(c) {
+		g.yield("sharedwrite")
+	}
+}
+
+func (g *G) touchedByOther(c *Cell) bool {
+	if sh := c.sh; sh != nil {
+		if sh.wG >= 0 && sh.wG != g.id {
+			return true
+		}
+		for rg := range sh.reads {
+			if rg != g.id {
+				return true
+			}
+		}
+	}
+	for _, k := range c.Kids {
+		if g.touchedByOther(k) {
+			return true
+		}
+	}
+	return false
+}
 
 func (g *G) reportRace(what string, a, b string) {
+	if !g.m.sched.race {
+		return // shadow state is kept for scheduling only
+	}
 	if a == "" || b == "" {
 		return // accesses from harness code only
 	}
@@ -505,7 +544,8 @@ func (g *G) onWriteMap(mo *MapObj) {
 type mutexState struct {
 	locked  bool
 	readers int
-	vc      []int
+	vc      []int // released by Unlock; acquired by Lock and RLock
+	rvc     []int // released by RUnlock; acquired by Lock only (two read-locked sections are not ordered)
 }
 
 func mutexOf(c *Cell) *mutexState {
@@ -536,6 +576,7 @@ func inMutexLock(g *G, fn *ssa.Function, args []Value) Value {
 	}
 	ms.locked = true
 	g.acquire(ms.vc)
+	g.acquire(ms.rvc)
 	return nil
 }
 
@@ -547,6 +588,7 @@ func inMutexTryLock(g *G, fn *ssa.Function, args []Value) Value {
 	}
 	ms.locked = true
 	g.acquire(ms.vc)
+	g.acquire(ms.rvc)
 	return g.m.ctx.True
 }
 
@@ -582,7 +624,7 @@ func inRUnlock(g *G, fn *ssa.Function, args []Value) Value {
 		panic(&goPanic{val: &IfaceV{T: types.Typ[types.String], V: g.m.strConst("sync: RUnlock of unlocked RWMutex")}, kind: "fatal", site: g.siteOfModule(), stack: g.stackTrace()})
 	}
 	ms.readers--
-	g.release(&ms.vc)
+	g.release(&ms.rvc)
 	return nil
 }
 
